@@ -90,9 +90,15 @@ func newEngineFor(p *Program, j JobSpec, cross bool) *Engine {
 	if j.MaxSteps > 0 {
 		e.maxSteps = j.MaxSteps
 	}
-	if j.Budget > 0 {
-		e.deadlineAt = time.Now().Unix() + int64(j.Budget)
+	budget := j.Budget
+	if budget == 0 {
+		// default wall-clock budgets per job: a run that exceeds them is INCOMPLETE (exit 2), never a pass
+		budget = 400
+		if os.Getenv("GOATSYM_TIER") == "thorough" {
+			budget = 2400
+		}
 	}
+	e.deadlineAt = time.Now().Unix() + int64(budget)
 	e.raceMode = j.Race
 	e.solver.Cross = cross
 	return e
@@ -273,6 +279,7 @@ func cmdCheck(args []string) {
 	par := fs.Int("j", 12, "parallel jobs")
 	fs.Parse(args)
 	t0 := time.Now()
+	os.Setenv("GOATSYM_TIER", *tier)
 	seed, _ := strconv.Atoi(os.Getenv("VERIF_SEED"))
 	specs := map[string]*PropSpec{}
 	b, err := os.ReadFile(filepath.Join(*hd, "properties.json"))
